@@ -362,6 +362,7 @@ func stdSum(t int32, data []byte) ([]byte, bool) {
 func (e *engine) runC15() {
 	e.rep.Rule = "content hashes: types -2..6 and int32 extremes × digest lengths 0/19/20/21/31/32/33 for Validate; VerifyData with correct, bit-flipped, truncated, wrong-type digests; binary and base58 encodings incl. arbitrary bytes; distinct = distinct op line"
 	e.rep.Require("validate.ok", "validate.err", "verify.1", "verify.0", "unmarshal.ok", "unmarshal.err", "marshal", "parseB58.ok", "parseB58.err")
+	e.runC15Compare()
 	types := []int32{-2, -1, 0, 1, 2, 3, 4, 5, 6, 2147483647, -2147483648, 128, 300}
 	lens := []int{0, 1, 19, 20, 21, 31, 32, 33, 64}
 	for rep := 0; rep < e.a.Scale; rep++ {
@@ -529,6 +530,124 @@ func (e *engine) runC15() {
 	}
 }
 
+// hashArg renders a (possibly nil) hash for the model: "nil" or "<type>:<hex digest>".
+func hashArg(h *hash.Hash) string {
+	if h == nil {
+		return "nil"
+	}
+	return fmt.Sprintf("%d:%s", int32(h.HashType), lib.Hex(h.Hash))
+}
+
+// runC15Compare drives hash.CompareHash with pairs that must compare UNEQUAL (other type, other
+// length, one flipped bit, nil on either side) next to the equal ones (same value in distinct
+// allocations, nil/nil, nil digest vs empty digest). Monitor (stdlib only): the result must be
+// "both nil, or both non-nil with the same type and bytes.Equal digests".
+func (e *engine) runC15Compare() {
+	e.rep.Require("compare.equal.1", "compare.nil-nil.1", "compare.type.0", "compare.shorter.0", "compare.longer.0",
+		"compare.bit.0", "compare.nil-left.0", "compare.nil-right.0", "compare.nil-vs-empty.0", "compare.empty-digests.1", "compare.random")
+	types := []int32{0, 1, 2, 3, 4, -1, 2147483647}
+	n := 40 * e.a.Scale
+	for i := 0; i < n; i++ {
+		t := types[e.rng.Intn(len(types))]
+		l := []int{1, 20, 32, 33, 64}[e.rng.Intn(5)]
+		d := e.rng.Bytes(l)
+		a := &hash.Hash{HashType: hash.HashType(t), Hash: d}
+		cp := func() *hash.Hash { return &hash.Hash{HashType: a.HashType, Hash: append([]byte(nil), d...)} }
+		type pair struct {
+			class string
+			x, y  *hash.Hash
+		}
+		var ps []pair
+		ps = append(ps, pair{"equal", a, cp()})
+		ps = append(ps, pair{"nil-nil", nil, nil})
+		ot := cp()
+		for ot.HashType == a.HashType {
+			ot.HashType = hash.HashType(types[e.rng.Intn(len(types))])
+		}
+		ps = append(ps, pair{"type", a, ot})
+		sh := cp()
+		sh.Hash = sh.Hash[:len(sh.Hash)-1]
+		ps = append(ps, pair{"shorter", a, sh})
+		lo := cp()
+		lo.Hash = append(lo.Hash, []byte{0, byte(e.rng.Intn(256))}[e.rng.Intn(2)])
+		ps = append(ps, pair{"longer", a, lo})
+		// one flipped bit, dense on the first and the last byte
+		bit := cp()
+		pos := e.rng.Intn(l)
+		switch i % 3 {
+		case 0:
+			pos = 0
+		case 1:
+			pos = l - 1
+		}
+		bit.Hash[pos] ^= 1 << e.rng.Intn(8)
+		ps = append(ps, pair{"bit", a, bit})
+		ps = append(ps, pair{"nil-left", nil, a})
+		ps = append(ps, pair{"nil-right", a, nil})
+		ps = append(ps, pair{"nil-vs-empty", nil, &hash.Hash{}})
+		ps = append(ps, pair{"nil-vs-empty", &hash.Hash{HashType: a.HashType}, nil})
+		ps = append(ps, pair{"empty-digests", &hash.Hash{HashType: a.HashType, Hash: nil}, &hash.Hash{HashType: a.HashType, Hash: []byte{}}})
+		// random pair over a tiny universe (hits equal and unequal)
+		rh := func() *hash.Hash {
+			if e.rng.Intn(6) == 0 {
+				return nil
+			}
+			return &hash.Hash{HashType: hash.HashType(e.rng.Intn(3)), Hash: e.rng.Bytes(e.rng.Intn(3))[:]}
+		}
+		for k := range 3 {
+			_ = k
+			x, y := rh(), rh()
+			if x != nil {
+				for j := range x.Hash {
+					x.Hash[j] &= 1
+				}
+			}
+			if y != nil {
+				for j := range y.Hash {
+					y.Hash[j] &= 1
+				}
+			}
+			ps = append(ps, pair{"random", x, y})
+		}
+		for _, p := range ps {
+			for dir := 0; dir < 2; dir++ {
+				x, y := p.x, p.y
+				if dir == 1 {
+					x, y = y, x
+				}
+				op := fmt.Sprintf("codec.hashCompare a=%s b=%s", hashArg(x), hashArg(y))
+				model := e.m.Query(op)
+				impl := lib.Recover(func() string {
+					if x.CompareHash(y) {
+						return "ok 1"
+					}
+					return "ok 0"
+				})
+				var want bool
+				if x == nil || y == nil {
+					want = x == nil && y == nil
+				} else {
+					want = x.HashType == y.HashType && bytes.Equal(x.Hash, y.Hash)
+				}
+				mon := ""
+				switch {
+				case strings.HasPrefix(impl, "panic"):
+					mon = "CompareHash panics (" + p.class + ")"
+				case impl == "ok 1" && !want:
+					mon = "CompareHash reports two different hashes as equal (" + p.class + ": " + hashArg(x) + " vs " + hashArg(y) + ")"
+				case impl == "ok 0" && want:
+					mon = "CompareHash reports equal hashes as different (" + p.class + ": " + hashArg(x) + " vs " + hashArg(y) + ")"
+				}
+				br := "compare." + p.class
+				if p.class != "random" {
+					br += "." + model[3:]
+				}
+				e.rep.Compare(op, model, impl, br, "codec.hashCompare:"+p.class, mon)
+			}
+		}
+	}
+}
+
 func main() {
 	a := lib.ParseArgs()
 	e := &engine{a: a, rng: lib.NewRng(a.Seed), m: lib.NewModel(a.Driver)}
@@ -536,8 +655,10 @@ func main() {
 	switch a.Prop {
 	case "C10":
 		e.runC10()
+		e.runC10History()
 	case "C15":
 		e.runC15()
+		e.runC15History()
 	default:
 		fmt.Println("unknown property", a.Prop)
 		return
